@@ -28,7 +28,16 @@ package main
 //   * generated definitions are named Recv_Method / Func (loops: …_loopN) — no dots, because a dotted definition name
 //     opens that namespace inside its own body and would capture identifiers; prelude functions are referred to as Go.x;
 //   * whatever does not fit is reported in `untranslatedProg` and nothing is emitted for that function (nor for its
-//     callers), and no name is emitted twice, so the generated file is always well-formed.
+//     callers), and no name is emitted twice, so the generated file is always well-formed;
+//   * ROBUSTNESS against behaviour-preserving rewritings of the source: before a body is translated it is brought to a normal
+//     form where pure syntax would otherwise change the INTERFACE of a generated loop function (gonorm.go: guards `if c
+//     { break }` at the head of a loop body are part of the loop condition, a temporary that stands for a side-effect-free
+//     expression over never-assigned variables is replaced by that expression where a loop mentions it, a variable that
+//     every round assigns before it reads it is not part of the loop's state, one-line expression helpers are unfolded); a
+//     call of an unexported function of the package that is not a target is translated in line, as a block (prochelper.go);
+//     `break L` / `continue L` are accepted when L is the innermost loop.  Differences that stay INSIDE a generated
+//     definition (mirrored comparisons, negated tests with exchanged branches, switch vs. if chain, temporaries in
+//     straight-line code) are not normalised: the tie proofs decide tests by omega and unfold `let`.
 // The extensions of the subset for the text level (byte strings, lossy integer conversions, owned lists of structs,
 // dispatch of the interface parsley.File to text.File, `return` inside loops, `for {}`, receivers on field / list paths,
 // utf8 / bytes / fmt primitives, the external world `X : Ext`) are in progtext.go, with their own header.
@@ -84,13 +93,14 @@ type pgFn struct {
 }
 
 type pgGen struct {
-	fset    *token.FileSet
-	byObj   map[*types.Func]*pgFn
-	fns     []*pgFn
-	structs []string
-	sdone   map[string]bool
-	problem []string
-	impl    map[*types.TypeName]*types.Named // interface -> the struct type its method calls are dispatched to
+	fset       *token.FileSet
+	byObj      map[*types.Func]*pgFn
+	fns        []*pgFn
+	structs    []string
+	sdone      map[string]bool
+	problem    []string
+	impl       map[*types.TypeName]*types.Named       // interface -> the struct type its method calls are dispatched to
+	normalised map[*ast.BlockStmt]map[*types.Var]bool // gonorm.go: the bodies already normalised, with their per-round variables
 }
 
 // ---- the little target language ----
@@ -158,25 +168,33 @@ func pgInline(n pgNode) string {
 
 // ---- per-function context ----
 
-type pgLoopK struct{ brk, cont pgNode }
+type pgLoopK struct {
+	brk, cont pgNode
+	label     string
+}
 
 type pgCtx struct {
-	g      *pgGen
-	fn     *pgFn
-	info   *types.Info
-	names  map[types.Object]string
-	taken  map[string]bool
-	ntmp   *int
-	nloop  *int
-	aux    *[]string
-	ret    func(vals []string) pgNode
-	retRaw func(term string) pgNode // return the term (of the function's whole result type) from where we are
-	resTy  string                   // the Lean type of the function's whole result
-	loops  []pgLoopK
-	inLit  *ast.FuncLit
-	recv   types.Object
-	resT   *types.Tuple
-	inSwch int
+	g         *pgGen
+	fn        *pgFn
+	info      *types.Info
+	names     map[types.Object]string
+	taken     map[string]bool
+	ntmp      *int
+	nloop     *int
+	aux       *[]string
+	ret       func(vals []string) pgNode
+	retRaw    func(term string) pgNode // return the term (of the function's whole result type) from where we are
+	resTy     string                   // the Lean type of the function's whole result
+	loops     []pgLoopK
+	inLit     *ast.FuncLit
+	recv      types.Object
+	resT      *types.Tuple
+	inSwch    int
+	loopLocal map[*types.Var]bool       // variables that are local to each round of their loop (gonorm.go, N7)
+	label     string                    // the label of the statement being translated (a loop)
+	inlining  map[*types.Func]bool      // the helpers whose bodies are being translated in line here (prochelper.go)
+	helperK   func(res ast.Expr) pgNode // continuation-style helper (prochelper.go inlineCond): where its `return` goes on
+	bodies    []*ast.BlockStmt          // the bodies of the helpers being translated in line around the current statement
 }
 
 var pgKeywords = map[string]bool{"fun": true, "do": true, "then": true, "else": true, "if": true, "let": true, "have": true, "show": true,
@@ -800,6 +818,7 @@ func (c *pgCtx) closure(x *ast.FuncLit) string {
 	}
 	sub := *c
 	sub.loops, sub.inLit, sub.inSwch, sub.resT = nil, x, 0, sig.Results()
+	sub.helperK = nil
 	sub.resTy = ""
 	if rt, ok := c.g.resultType(sig, false, nil); ok {
 		sub.resTy = rt
@@ -961,6 +980,9 @@ func (c *pgCtx) call(x *ast.CallExpr) (pre []string, code string, mon bool) {
 				strings.Join(ints, ", "), strings.Join(strs, ", "), strings.Join(objs, ", ")), false
 		}
 		if fn == nil {
+			if fd := c.helperOf(o); fd != nil { // an unexported helper of the same package: translated in line
+				return c.inlineCall(x, o, recv, fd)
+			}
 			pgFail("call of %s, which is not among the translated functions", o.FullName())
 		}
 		if fn.inout {
@@ -1325,6 +1347,9 @@ func (c *pgCtx) stmt(s ast.Stmt, k pgNode) pgNode {
 	case *ast.BlockStmt:
 		return c.stmts(x.List, k)
 	case *ast.ReturnStmt:
+		if c.helperK != nil && len(x.Results) == 1 { // a `return` of a helper translated in continuation style
+			return c.helperK(x.Results[0])
+		}
 		var pre, vals []string
 		if len(x.Results) == 1 {
 			if call, ok := x.Results[0].(*ast.CallExpr); ok && c.isInoutCall(call) {
@@ -1440,6 +1465,9 @@ func (c *pgCtx) stmt(s ast.Stmt, k pgNode) pgNode {
 		}
 		return c.lets(append(pre, "let _ ← "+code), k)
 	case *ast.IfStmt:
+		if n := c.inlineCond(x, k); n != nil {
+			return n
+		}
 		var pre []string
 		cond := c.atom(x.Cond, &pre)
 		els := k
@@ -1461,12 +1489,24 @@ func (c *pgCtx) stmt(s ast.Stmt, k pgNode) pgNode {
 		return n
 	case *ast.RangeStmt:
 		return c.rangeLoop(x, k)
+	case *ast.LabeledStmt: // a labelled loop: `break L` / `continue L` from inside it (typically from inside a switch)
+		switch x.Stmt.(type) {
+		case *ast.ForStmt, *ast.RangeStmt:
+			c.label = x.Label.Name
+			n := c.stmt(x.Stmt, k)
+			c.label = ""
+			return n
+		}
+		pgFail("labelled statement %s", norm(x))
 	case *ast.BranchStmt:
-		if x.Label != nil || len(c.loops) == 0 || (x.Tok != token.BREAK && x.Tok != token.CONTINUE) {
+		if len(c.loops) == 0 || (x.Tok != token.BREAK && x.Tok != token.CONTINUE) {
 			pgFail("branch statement %s", norm(x))
 		}
+		if x.Label != nil && c.loops[len(c.loops)-1].label != x.Label.Name { // only the innermost loop can be left: no signal passes a loop function
+			pgFail("branch statement %s: the label is not the innermost loop's", norm(x))
+		}
 		if x.Tok == token.BREAK {
-			if c.inSwch > 0 {
+			if c.inSwch > 0 && x.Label == nil {
 				pgFail("break inside a switch")
 			}
 			return c.loops[len(c.loops)-1].brk
@@ -1589,7 +1629,7 @@ func (c *pgCtx) emitLoop(kind string, region []ast.Node, inside func(token.Pos) 
 	}
 	var fixed, state []pgVar
 	for _, v := range pgUsed(c.info, region...) {
-		if inside(v.Pos()) {
+		if inside(v.Pos()) || c.loopLocal[v] {
 			continue
 		}
 		pv := pgVar{c.name(v), c.typ(v.Type())}
@@ -1675,11 +1715,14 @@ func (c *pgCtx) emitLoop(kind string, region []ast.Node, inside func(token.Pos) 
 }
 
 func (c *pgCtx) forLoop(x *ast.ForStmt, k pgNode) pgNode {
+	label := c.label
+	c.label = ""
 	var atoms []string
-	if x.Cond == nil {
-		atoms = c.guardFuel(x)
-	} else {
+	if x.Cond != nil {
 		c.fuelAtoms(x.Cond, false, &atoms)
+	}
+	if len(atoms) == 0 { // no `<` in the condition (or no condition): the guards of the body and the lengths the loop mentions
+		atoms = c.guardFuel(x)
 	}
 	if len(atoms) == 0 {
 		pgFail("no fuel bound for the loop condition %s", norm(x.Cond))
@@ -1696,7 +1739,7 @@ func (c *pgCtx) forLoop(x *ast.ForStmt, k pgNode) pgNode {
 			if x.Post != nil {
 				again = c.stmt(x.Post, again)
 			}
-			c.loops = append(c.loops, pgLoopK{done, again})
+			c.loops = append(c.loops, pgLoopK{done, again, label})
 			sw := c.inSwch
 			c.inSwch = 0
 			body := c.stmts(x.Body.List, again)
@@ -1732,8 +1775,10 @@ func (c *pgCtx) rangeLoop(x *ast.RangeStmt, k pgNode) pgNode {
 	coll := c.atom(x.X, &pre)
 	kv, vv := c.rangeVar(x.Key, x.Tok), c.rangeVar(x.Value, x.Tok)
 	inside := func(p token.Pos) bool { return x.Pos() <= p && p < x.End() }
+	label := c.label
+	c.label = ""
 	runBody := func(again, done pgNode) pgNode {
-		c.loops = append(c.loops, pgLoopK{done, again})
+		c.loops = append(c.loops, pgLoopK{done, again, label})
 		sw := c.inSwch
 		c.inSwch = 0
 		b := c.stmts(x.Body.List, again)
@@ -1841,6 +1886,7 @@ func (g *pgGen) translate(fn *pgFn) {
 	if fn.ext {
 		params = append([]string{"(X : Ext)"}, params...)
 	}
+	c.loopLocal = g.normalise(fn)
 	body := c.stmts(fn.decl.Body.List, c.ret0())
 	var lines []string
 	pgPrint(body, "  ", &lines)
